@@ -66,6 +66,11 @@ CHECKS['C11'] = ('fault_enumeration', 'exhaustive fault injection (cancel at eve
     'each consumer must receive exactly the puts between its subscription and its leave, once, in put order, at the right time; consumers that were not hit receive everything; close semantics are checked.',
     'Trusts the sequence oracle in vk/checks/c11.py; one channel, <= 2x2 messages, <= 3 consumers, one fault.',
     'DESIGN.md section 3 C11')
+CHECKS['C13'] = ('fault_enumeration', 'exhaustive fault injection (cancel at every activation boundary, until-interrupt/close at every queue position and at fractional times) into enumerated transfer programs on the real Pipe vs. an exact rational processor-sharing model',
+    'All programs of 1-3 activities with 1-2 sequential transfers each (volumes 0/1/2/4, limits none/1/4, start offsets 0/1/2) on pipes of throughput 1/2/3/inf and on UnboundedPipe are executed fault-free and with one injected cancel / until-interrupt / close on every transferring activity; '
+    'every completed transfer must end at the time a processor-sharing fluid model in rational arithmetic computes from the observed start and abort times (so an aborted transfer must free its bandwidth at once), and a probe transfer afterwards sees an idle pipe.',
+    'Trusts the 80-line fluid model; tolerance 1e-9 relative; values from a small dyadic-friendly alphabet.',
+    'DESIGN.md section 3 C13')
 PENDING = {}
 
 def main():
